@@ -5,6 +5,7 @@ import GramModel.Oracle
 import GramModel.Typing
 import GramModel.Lemmas.RewriteTyping
 import GramModel.Lemmas.RewriteMore
+import GramModel.Lemmas.ResolveRename
 
 /-!
 # C19 — meaning-preserving rewrites change neither acceptance nor result
@@ -1001,3 +1002,211 @@ example : (reassoc .sumsAndDifferences none (.mk ⟨0, 12⟩ false (.bin .diff (
     (reassoc .sumsAndDifferences none prog19).isSome = true := ⟨by rfl, by rfl⟩
 
 end ParenExamples
+
+/-! ## Consistent renaming of bound variables, at source level
+
+(`Lemmas/ResolveRename.lean`.) -/
+
+section SourceRename
+open PModel
+
+mutual
+theorem eraseNames_renameTm (ρ : Name → Name) : ∀ (t : Tm), eraseNames (renameTm ρ t) = eraseNames t
+  | .var _ _ | .hole _ _ | .type | .int | .bool | .tt | .ff | .lit _ => by
+      simp [renameTm, eraseNames]
+  | .lam _ _ d b | .pi _ _ d b => by
+      simp [renameTm, eraseNames, eraseNames_renameTm ρ d, eraseNames_renameTm ρ b]
+  | .app f a => by simp [renameTm, eraseNames, eraseNames_renameTm ρ f, eraseNames_renameTm ρ a]
+  | .letg ds b => by
+      simp [renameTm, eraseNames, eraseNamesDefs_renameTm ρ ds, eraseNames_renameTm ρ b]
+  | .neg a => by simp [renameTm, eraseNames, eraseNames_renameTm ρ a]
+  | .bin _ a b => by simp [renameTm, eraseNames, eraseNames_renameTm ρ a, eraseNames_renameTm ρ b]
+  | .ite c a b => by
+      simp [renameTm, eraseNames, eraseNames_renameTm ρ c, eraseNames_renameTm ρ a,
+        eraseNames_renameTm ρ b]
+theorem eraseNamesDefs_renameTm (ρ : Name → Name) : ∀ (ds : Defs),
+    eraseNamesDefs (renameTmDefs ρ ds) = eraseNamesDefs ds
+  | .nil => by simp [renameTmDefs, eraseNamesDefs]
+  | .cons _ a d r => by
+      simp [renameTmDefs, eraseNamesDefs, eraseNames_renameTm ρ a, eraseNames_renameTm ρ d,
+        eraseNamesDefs_renameTm ρ r]
+end
+
+/-- **Resolution commutes with a consistent renaming.**  `ρ` is admissible for the program `s` in the
+context `c` (`PModel.Admissible`): injective on the names of `s` and the keys of `c`, fixes the
+placeholder `_`, renames no name to it.  Then the renamed program in the renamed context
+(`renSt ρ`: the keys of the context renamed, the same depths, the same error list and allocator)
+resolves exactly when the original does (`none` = the Rust `panic!` on a `ParseError` node), to the
+same resolved term with the name annotations renamed (`renameR ρ`: structure, de Bruijn indices,
+hole ids and shifts, source ranges identical) and leaves the same state up to the keys of the
+context: the IDENTICAL error list (same diagnostics at the same positions), the same allocator. -/
+def C19_resolve_rename_stmt : Prop :=
+  ∀ (ρ : Name → Name) (s : Src) (depth : Nat) (st : RState), Admissible ρ s st.ctx →
+    resolve (renameSrc ρ s) depth (renSt ρ st) =
+      (resolve s depth st).map (fun p => (renameR ρ p.1, renSt ρ p.2))
+theorem C19_resolve_rename : C19_resolve_rename_stmt := resolve_rename
+
+/-- The same with the names erased: the two programs resolve to the SAME de Bruijn term, report the
+same errors and allocate the same holes; the final contexts correspond. -/
+def C19_resolve_rename_erased_stmt : Prop :=
+  ∀ (ρ : Name → Name) (s : Src) (depth : Nat) (st : RState), Admissible ρ s st.ctx →
+    (resolve (renameSrc ρ s) depth (renSt ρ st)).map
+        (fun p => (eraseNames p.1.erase, p.2.errors, p.2.nextHole, p.2.ctx)) =
+      (resolve s depth st).map
+        (fun p => (eraseNames p.1.erase, p.2.errors, p.2.nextHole, renCtx ρ p.2.ctx))
+theorem C19_resolve_rename_erased : C19_resolve_rename_erased_stmt := by
+  intro ρ s depth st h
+  rw [resolve_rename ρ s depth st h]
+  cases resolve s depth st with
+  | none => rfl
+  | some p =>
+    simp only [Option.map_some, renSt_errors, renSt_nextHole, renSt_ctx, renameR_erase,
+      eraseNames_renameTm]
+
+/-- The resolved terms also have the same source ranges everywhere: with names *renamed* rather
+than erased they are equal on the nose, hence `check_definitions` (which reports through those
+ranges) gives the same answer on both. -/
+def C19_rename_check_definitions_stmt : Prop :=
+  ∀ (ρ : Name → Name) (t : RTm) (depth : Nat) (errors : List PErr),
+    checkDefinitions (renameR ρ t) depth errors = checkDefinitions t depth errors
+theorem C19_rename_check_definitions : C19_rename_check_definitions_stmt := checkDefinitions_rename
+
+/-- **Everything `parse` does after the parse phase commutes with an injective renaming that fixes
+the placeholder**: collecting the syntax errors, the three re-association passes (they never look at
+a name: `reassoc_rename`), resolution against the renamed initial context, `check_definitions`.  The
+outcome is the same: the same list of diagnostics (same positions), the same panic, or the accepted
+term with renamed annotations. -/
+def C19_rename_finish_parse_stmt : Prop :=
+  ∀ (ρ : Name → Name), (∀ x y, ρ x = ρ y → x = y) → ρ placeholder = placeholder →
+    ∀ (toks : Array PTok) (context : List Name) (term : Src) (next : Nat),
+      finishParse toks (context.map ρ) (renameSrc ρ term) next =
+        renOutcome ρ (finishParse toks context term next)
+theorem C19_rename_finish_parse : C19_rename_finish_parse_stmt := finishParse_rename
+
+/-- **The pipeline after resolution cannot see the renaming.**  If the original resolves to `r`, the
+renamed program resolves to an `r'` such that, names erased: the terms are equal, the independent
+checker reports the same type (or rejects both), and every fuel-bounded evaluation gives the same
+result; `check_definitions` answers the same on both. -/
+def C19_rename_pipeline_stmt : Prop :=
+  ∀ (ρ : Name → Name) (s : Src) (depth : Nat) (st : RState) (r : RTm) (st' : RState),
+    Admissible ρ s st.ctx → resolve s depth st = some (r, st') →
+    ∃ r', resolve (renameSrc ρ s) depth (renSt ρ st) = some (r', renSt ρ st') ∧
+      (renSt ρ st').errors = st'.errors ∧
+      eraseNames r'.erase = eraseNames r.erase ∧
+      (∀ (d : Nat) (es : List PErr), checkDefinitions r' d es = checkDefinitions r d es) ∧
+      (∀ (f : Nat) (Γ : TCtxX) (Δ : DCtxX),
+        (inferX f Γ Δ r'.erase).toOption.map eraseNames =
+          (inferX f Γ Δ r.erase).toOption.map eraseNames) ∧
+      (∀ (n : Nat), eraseNames (evalFuel n r'.erase) = eraseNames (evalFuel n r.erase))
+theorem C19_rename_pipeline : C19_rename_pipeline_stmt := by
+  intro ρ s depth st r st' h hr
+  have e := resolve_rename ρ s depth st h
+  rw [hr] at e
+  have he : eraseNames (renameR ρ r).erase = eraseNames r.erase := by
+    rw [renameR_erase, eraseNames_renameTm]
+  refine ⟨renameR ρ r, e, rfl, he, fun d es => checkDefinitions_rename ρ r d es, ?_, ?_⟩
+  · intro f Γ Δ
+    exact C19_typing_names f Γ Δ _ _ he
+  · intro n
+    rw [← C19_names_irrelevant_eval, ← C19_names_irrelevant_eval, he]
+
+/-! ### A renaming that is not admissible changes the outcome (kernel-checked witnesses) -/
+
+/-- `x => y => x` (names: `x` = 1, `y` = 2), as the parser returns it. -/
+def rn19ProgXY : Src :=
+  .mk ⟨0, 11⟩ false (.lam ⟨⟨0, 1⟩, 1⟩ false .none
+    (.mk ⟨5, 11⟩ false (.lam ⟨⟨5, 6⟩, 2⟩ false .none (.mk ⟨10, 11⟩ false (.var 1) [])) [])) []
+
+/-- `y ↦ x`: not injective on the names of the program. -/
+def rn19RhoCapture : Name → Name := fun n => if n = 2 then 1 else n
+
+/-- `(x : int) => x` (name `x` = 1). -/
+def rn19ProgId : Src :=
+  .mk ⟨0, 14⟩ false (.lam ⟨⟨1, 2⟩, 1⟩ false (.some (.mk ⟨5, 8⟩ false .int []))
+    (.mk ⟨13, 14⟩ false (.var 1) [])) []
+
+/-- `x ↦ _`: a name is renamed to the placeholder. -/
+def rn19RhoPlaceholder : Name → Name := fun n => if n = 1 then 0 else n
+
+/-- Capture: renaming `y` to `x` in `x => y => x` gives `x => x => x`; the original resolves without
+a diagnostic, the renamed program reports "Variable `x` already exists" at the inner binder (the real
+`gram check` agrees on both). -/
+def C19_rename_capture_witness_stmt : Prop :=
+  ¬ Admissible rn19RhoCapture rn19ProgXY [] ∧
+  (resolve rn19ProgXY 0 ⟨[], [], 0⟩).map (fun p => p.2.errors) = some [] ∧
+  (resolve (renameSrc rn19RhoCapture rn19ProgXY) 0 ⟨[], [], 0⟩).map (fun p => p.2.errors) =
+    some [[⟨5, 6⟩]]
+theorem C19_rename_capture_witness : C19_rename_capture_witness_stmt := by
+  refine ⟨fun h => ?_, by decide +kernel, by decide +kernel⟩
+  have := h.inj 1 (by decide +kernel) 2 (by decide +kernel) (by decide)
+  exact absurd this (by decide)
+
+/-- Renaming a name to the placeholder: `(x : int) => x` becomes `(_ : int) => _`; no diagnostic
+either way, but the body is no longer the bound variable (index 0): it is a fresh unifier (the real
+`gram check` reports the type `int -> type` instead of `int -> int`). -/
+def C19_rename_placeholder_witness_stmt : Prop :=
+  ¬ Admissible rn19RhoPlaceholder rn19ProgId [] ∧
+  (resolve rn19ProgId 0 ⟨[], [], 0⟩).map (fun p => (eraseNames p.1.erase, p.2.errors)) =
+    some (.lam 0 false .int (.var 0 0), []) ∧
+  (resolve (renameSrc rn19RhoPlaceholder rn19ProgId) 0 ⟨[], [], 0⟩).map
+      (fun p => (eraseNames p.1.erase, p.2.errors)) =
+    some (.lam 0 false .int (.hole 0 0), [])
+theorem C19_rename_placeholder_witness : C19_rename_placeholder_witness_stmt := by
+  refine ⟨fun h => ?_, by decide +kernel, by decide +kernel⟩
+  exact h.nz 1 (by decide +kernel) (by decide) (by decide)
+
+/-- Hence the admissibility hypothesis of `C19_resolve_rename` cannot be dropped. -/
+def C19_resolve_rename_unrestricted : Prop :=
+  ∀ (ρ : Name → Name) (s : Src) (depth : Nat) (st : RState),
+    resolve (renameSrc ρ s) depth (renSt ρ st) =
+      (resolve s depth st).map (fun p => (renameR ρ p.1, renSt ρ p.2))
+theorem C19_resolve_rename_unrestricted_refuted : ¬ C19_resolve_rename_unrestricted := by
+  intro h
+  have e := congrArg (Option.map (fun p => p.2.errors))
+    (h rn19RhoCapture rn19ProgXY 0 ⟨[], [], 0⟩)
+  have w := C19_rename_capture_witness
+  rw [show renSt rn19RhoCapture ⟨[], [], 0⟩ = ⟨[], [], 0⟩ from rfl, w.2.2, Option.map_map] at e
+  have w1 := w.2.1
+  revert e w1
+  cases resolve rn19ProgXY 0 ⟨[], [], 0⟩ with
+  | none => intro e; simp at e
+  | some p => intro e w1; simp at e w1; rw [w1] at e; simp at e
+
+/-! ### Non-vacuity: `(x : int) => (y : int) => x + y` with `x ↦ a`, `y ↦ b` -/
+
+/-- `(x : int) => (y : int) => x + y` (names `x` = 1, `y` = 2). -/
+def rn19ProgAdd : Src :=
+  .mk ⟨0, 31⟩ false (.lam ⟨⟨1, 2⟩, 1⟩ false (.some (.mk ⟨5, 8⟩ false .int []))
+    (.mk ⟨13, 31⟩ false (.lam ⟨⟨14, 15⟩, 2⟩ false (.some (.mk ⟨18, 21⟩ false .int []))
+      (.mk ⟨26, 31⟩ false (.bin .sum (.mk ⟨26, 27⟩ false (.var 1) [])
+        (.mk ⟨30, 31⟩ false (.var 2) [])) [])) [])) []
+
+/-- `x ↦ a` (3), `y ↦ b` (4), everything else fixed: not injective globally (`a ↦ a`), but
+admissible for this program. -/
+def rn19RhoAB : Name → Name := fun n => if n = 1 then 3 else if n = 2 then 4 else n
+
+theorem rn19RhoAB_admissible : Admissible rn19RhoAB rn19ProgAdd [] :=
+  ⟨by decide +kernel, by decide, by decide +kernel⟩
+
+example : (resolve rn19ProgAdd 0 ⟨[], [], 0⟩).map (fun p => (eraseNames p.1.erase, p.2.errors)) =
+    some (.lam 0 false .int (.lam 0 false .int (.bin .sum (.var 0 1) (.var 0 0))), []) := by
+  decide +kernel
+example : (resolve (renameSrc rn19RhoAB rn19ProgAdd) 0 ⟨[], [], 0⟩).map
+      (fun p => (eraseNames p.1.erase, p.2.errors)) =
+    some (.lam 0 false .int (.lam 0 false .int (.bin .sum (.var 0 1) (.var 0 0))), []) := by
+  decide +kernel
+-- the renamed program really has the new names
+example : (resolve (renameSrc rn19RhoAB rn19ProgAdd) 0 ⟨[], [], 0⟩).map (fun p => p.1.erase) =
+    some (.lam 3 false .int (.lam 4 false .int (.bin .sum (.var 3 1) (.var 4 0)))) := by
+  decide +kernel
+/-- `x ↔ a`: a permutation, so globally injective. -/
+def rn19RhoSwap : Nat → Nat := fun n => if n = 1 then 3 else if n = 3 then 1 else n
+theorem rn19RhoSwap_inj : ∀ x y : Nat, rn19RhoSwap x = rn19RhoSwap y → x = y := by
+  intro x y h
+  unfold rn19RhoSwap at h
+  split at h <;> split at h <;> (try split at h) <;> (try split at h) <;> omega
+-- the hypotheses of `C19_rename_finish_parse` are satisfiable
+example : (∀ x y : Name, rn19RhoSwap x = rn19RhoSwap y → x = y) ∧
+    rn19RhoSwap placeholder = placeholder := ⟨rn19RhoSwap_inj, by decide⟩
+
+end SourceRename
